@@ -124,3 +124,21 @@ PROPS["C12"] = {
     "thorough": [rapid("packwriter", "^TestPropPackWriter$", 150, shards=7), rapid("unpackreader", "^TestPropUnpackReader$", 150, shards=7),
                  rapid("policy", "^TestPropPolicy$", 20000, shards=1)],
 }
+
+PROPS["C03"] = {
+    "pkg": "c03",
+    "level": "exploration",
+    "rule": ("rapid draws a tree (<=16 nodes + members of .git/, .terraform/plugins/, .terraform/modules/) and a rule file of 0-8 lines, 60% "
+             "of the patterns derived from the tree's own paths (segments kept, turned into '*', 'x*', '?', or collapsed into '**'; prefix or "
+             "suffix of the path; anchored or not; directory form or not), the rest from a pattern grammar over the same name pool incl. "
+             "names with + ( ) { } | ^ $; '!' negation, comments, blank lines, surrounding blanks, CRLF, or no rule file. Four legs: Pack with "
+             "ignore on; ignore off; Pack with dereferencing where one top-level directory is reached through a link to an external "
+             "directory; bundle build of a fetched package. Oracle: every non-directory path is shipped iff the segment-wise reference matcher "
+             "does not exclude its own path. Non-trivial = a rule from the file matches a path and the file has a negation, anchor, '**', "
+             "wildcard or regex-special literal; distinct by case hash."),
+    "assumptions": ["'[...]' classes, '\\\\' escapes and '**' inside a segment are outside the generated language", "directory entries are judged only when no negation is present and both forms are excluded", "deref leg: cases where the link itself is excluded by name are counted, not judged"],
+    "quick": [rapid("pack", "^TestPropIgnorePack$", 900, shards=2), rapid("deref", "^TestPropIgnoreDeref$", 900, shards=2),
+              rapid("bundle", "^TestPropIgnoreBundle$", 900, shards=2), rapid("off", "^TestPropIgnoreOff$", 400, shards=1)],
+    "thorough": [rapid("pack", "^TestPropIgnorePack$", 15000, shards=5), rapid("deref", "^TestPropIgnoreDeref$", 15000, shards=4),
+                 rapid("bundle", "^TestPropIgnoreBundle$", 15000, shards=4), rapid("off", "^TestPropIgnoreOff$", 8000, shards=1)],
+}
